@@ -34,6 +34,7 @@ type GRemoteAccess struct {
 	CertMap  string
 	Seq      int
 	Subject  string
+	CertSubs []string // further sub-commands of the certificate map
 	TG       string
 	TGAttrs  []string // ipsec-attributes
 	GP       string
@@ -44,6 +45,8 @@ type GRemoteAccess struct {
 	PoolDef  string
 	WebVPN   bool // also in certificate-group-map of webvpn
 }
+
+const certEKU = "extended-key-usage co 1.3.6.1.4.1.311.20.2.2"
 
 type GUser struct {
 	Name   string
@@ -90,6 +93,7 @@ func (v *GVPN) clone() *GVPN {
 		c := *r
 		c.TGAttrs = append([]string{}, r.TGAttrs...)
 		c.GPAttrs = append([]string{}, r.GPAttrs...)
+		c.CertSubs = append([]string{}, r.CertSubs...)
 		c.Filter, c.Split = cloneACL(r.Filter), cloneACL(r.Split)
 		n.RA = append(n.RA, &c)
 	}
@@ -176,6 +180,9 @@ func (v *GVPN) Text() string {
 		printACL(&b, r.Split, true)
 		printACL(&b, r.Filter, false)
 		fmt.Fprintf(&b, "crypto ca certificate map %s %d\n subject-name attr ea co %s\n", r.CertMap, r.Seq, r.Subject)
+		for _, l := range r.CertSubs {
+			b.WriteString(" " + l + "\n")
+		}
 		if r.PoolName != "" && !poolSeen[r.PoolName] {
 			poolSeen[r.PoolName] = true
 			fmt.Fprintf(&b, "ip local pool %s %s\n", r.PoolName, r.PoolDef)
@@ -291,6 +298,9 @@ func (g *Gen) TargetVPN(intf string) *GVPN {
 			r.TGAttrs = []string{"peer-id-validate req", "trust-point ASDM_TrustPoint" + fmt.Sprint(1+g.Rng.Intn(4))}
 		}
 		r.WebVPN = g.Rng.Intn(2) == 0
+		if g.Rng.Intn(3) == 0 {
+			r.CertSubs = []string{certEKU}
+		}
 		v.RA = append(v.RA, r)
 	}
 	for i := g.Rng.Intn(3); i > 0; i-- {
@@ -315,7 +325,22 @@ func (g *Gen) EditVPN(v *GVPN) string {
 	if v == nil {
 		return ""
 	}
-	switch g.Rng.Intn(17) {
+	switch g.Rng.Intn(18) {
+	case 17: // device numbers the certificate map differently; often with a changed sub-command
+		if len(v.RA) > 0 {
+			r := v.RA[g.Rng.Intn(len(v.RA))]
+			r.Seq = []int{5, 20, 30}[g.Rng.Intn(3)]
+			if g.Rng.Intn(3) == 0 {
+				return "certmap-seq-differs"
+			}
+			if len(r.CertSubs) > 0 {
+				r.CertSubs = nil
+			} else {
+				r.CertSubs = []string{certEKU}
+			}
+			return "certmap-seq-differs+sub"
+		}
+
 	case 0: // generated names
 		sfx := fmt.Sprintf("-DRC-%d", g.Rng.Intn(2))
 		ren := func(a *GACL) {
